@@ -34,8 +34,8 @@ theorem C11_balanced_market_covered_not_charged (ops : Ops α B) (env : Env α) 
   chargeLoop_satisfied ops env v ts sorted fuel st cost i hs hd
 
 /-- **If the cheapest price level suffices, nothing is charged at a dearer present.**
-Let the order be headed by a price group that does not start with the current timestep (`s0 ≠ 0`: some
-later timestep is cheaper, or equally cheap and … never: equal prices are ordered by time), let `pw2`,
+Let the order be headed by a price group that does not contain the current timestep (every member is
+strictly cheaper than the present by at least `EPS`, and the present is above `PRICE_THRESHOLD`), let `pw2`,
 `sm2` be the plan and the simulated battery after that group has been planned (naive pass, then the
 power bisection if the naive pass overshoots), and suppose the simulated SoC `sm2` meets the target of the
 next price level (or there is no further level).  Then the planning loop ends without booking anything:
@@ -43,7 +43,8 @@ connector loads, station power, real battery, commands are those of `st`; only t
 battery and the loop index differ. -/
 theorem C11_balanced_market_cheapest_level_suffices_no_charge (ops : Ops α B) (env : Env α)
     (v : VehicleS α B) (ts : List (TS α)) (sorted : List (α × Nat)) (fuel : Nat) (st : VSt α B)
-    (c0 : α) (s0 : Nat) (hs : sorted[st.sortedIdx]? = some (c0, s0)) (hne : s0 ≠ 0)
+    (c0 : α) (s0 : Nat) (hs : sorted[st.sortedIdx]? = some (c0, s0))
+    (hne : (samePrice env sorted st.sortedIdx c0 s0).1.contains 0 = false)
     (hnot : ¬ desiredAt env v c0 ≤ ops.soc st.sim)
     (pw1 : List α) (sm1 : B)
     (h1 : naivePass ops st.cs v.minChargingPower ts (samePrice env sorted st.sortedIdx c0 s0).1
@@ -71,20 +72,21 @@ example :
       (fun s => (s.cmds, s.gc.loads, s.sortedIdx, decide (desiredAt (toyEnv (some (1/10))) (toyVeh false (1/2)) (3/10) ≤ s.sim))) =
       some ([], [("load", 4)], 0, true) := by decide +kernel
 
-/-- **Grid energy only when the present heads a price level that is still needed (partial).**
+/-- **Grid energy only when the present belongs to a price level that is still needed (partial).**
 Whatever the planning loop of one vehicle does, either it leaves connector, station, real battery,
-commands and the list of discharging stations untouched, or the current timestep (index 0) is the
-first entry `sorted[j]` of a price group the loop reached (`j` at or after the start position, before
-the position at which the loop stopped), i.e. every entry planned before it is at most as dear
-(`C11_balanced_market_cheapest_first`) and the simulated SoC was still below that level's target when
-the group was opened.  Not proved (hence `_partial`): that the desired SoC is reached by departure,
-and the cost comparison with greedy; see notes/S_BALANCED_MARKET.md for a world in which the present
-is cheap, is planned, and is nevertheless not used because it does not *head* its price group. -/
-theorem C11_balanced_market_charges_only_heading_group_partial (ops : Ops α B) (env : Env α)
+commands and the list of discharging stations untouched, or the current timestep (index 0) is a member
+of a price group the loop reached: the group opened at `sorted[j]` (`j` at or after the start position,
+before the position at which the loop stopped), i.e. every entry planned before that group is at most
+as dear (`C11_balanced_market_cheapest_first`) and the simulated SoC was still below that level's
+target when the group was opened.  (Pinned code: only when the present *headed* the group — defect BM1,
+repaired; the converse is `C09_balanced_market_planned_present_is_charged`.)  Not proved (hence
+`_partial`): that the desired SoC is reached by departure, and the cost comparison with greedy. -/
+theorem C11_balanced_market_charges_only_in_needed_group_partial (ops : Ops α B) (env : Env α)
     (v : VehicleS α B) (ts : List (TS α)) (sorted : List (α × Nat)) (fuel : Nat) (st st' : VSt α B)
     (h : chargeLoop ops env v ts sorted fuel st = .ok st') :
     (st'.bat = st.bat ∧ st'.gc = st.gc ∧ st'.cs = st.cs ∧ st'.cmds = st.cmds ∧ st'.dis = st.dis) ∨
-    (∃ j cost, st.sortedIdx ≤ j ∧ sorted[j]? = some (cost, 0) ∧ j < st'.sortedIdx ∧ st'.dis = st.dis) :=
+    (∃ j cost s, st.sortedIdx ≤ j ∧ sorted[j]? = some (cost, s) ∧
+      (samePrice env sorted j cost s).1.contains 0 = true ∧ j < st'.sortedIdx ∧ st'.dis = st.dis) :=
   chargeLoop_frame ops env v ts sorted fuel st st' h
 
 /-- Non-vacuity: price 0.30 now, 0.10 announced from the next step on, the vehicle (0.5 → 0.8, two
